@@ -14,6 +14,7 @@ type Script struct {
 	Id     string      `json:"id"`
 	Family string      `json:"family,omitempty"`
 	Cfg    *world.Cfg  `json:"cfg,omitempty"`
+	Evm    string      `json:"evm,omitempty"` // chain backed by the real contract on a simulated EVM
 	Acts   []world.Act `json:"acts"`
 }
 
@@ -28,16 +29,33 @@ func Run(s Script, base world.Cfg, opt Options, out io.Writer) (*world.World, er
 	if s.Cfg != nil {
 		cfg = *s.Cfg
 	}
-	w := world.New(cfg)
+	var w *world.World
+	if s.Evm != "" {
+		var err error
+		if w, err = world.NewWithEvm(cfg, s.Evm); err != nil {
+			return nil, err
+		}
+	} else {
+		w = world.New(cfg)
+	}
 	enc := json.NewEncoder(out)
 	enc.SetEscapeHTML(false)
-	if err := enc.Encode(world.J{"k": "reset", "id": s.Id, "family": s.Family, "cfg": cfgJSON(cfg), "aux": w.Aux(), "post": w.Project()}); err != nil {
+	first := world.J{"k": "reset", "id": s.Id, "family": s.Family}
+	if !opt.NoPost {
+		first["cfg"] = cfgJSON(cfg)
+		first["aux"] = w.Aux()
+		first["post"] = w.Project()
+	}
+	if err := enc.Encode(first); err != nil {
 		return w, err
 	}
 	for i, a := range s.Acts {
 		a["i"] = i + 1
 		o := w.Exec(a)
-		line := world.J{"k": "step", "i": i + 1, "act": w.Canon(a), "res": o}
+		line := world.J{"k": "step", "i": i + 1, "act": world.J{"k": a.S("k")}, "res": o}
+		if !opt.NoPost {
+			line["act"] = w.Canon(a)
+		}
 		if !opt.NoPost {
 			line["post"] = w.Project()
 		}
